@@ -1,6 +1,6 @@
 (** C05 - a failed training run raises in bounded time and never returns weights. *)
 From Coq Require Import List Bool Arith ZArith.
-From PV Require Import BinFmt Store RWSpec RWExec RWProofs RWMain Sched QueueProofs QueueTrace QueueFaults Proto ProtoProofs Faults FaultsProofs.
+From PV Require Import BinFmt Store RWSpec RWExec RWProofs RWMain Sched QueueProofs QueueTrace QueueFaults QueueNowait QueueNowaitProofs Proto ProtoProofs Faults FaultsProofs.
 Import ListNotations.
 Open Scope nat_scope.
 
@@ -119,3 +119,30 @@ Example C05_run_raises :
   let s := prun repaired res 4 [Submit; Submit; Submit; Submit; Process 3; Process 2; Process 1; Process 0; Submit] pinit in
   pfinished s = true /\ conversion_outcome s = Raise 2.
 Proof. vm_compute. split; reflexivity. Qed.
+
+(** * The same three claims for the lock-free worker protocol (get_nowait until queue.Empty, QueueNowait.v) *)
+Theorem C05_nowait_returns_only_if_no_failure :
+  forall (A : Type) (seqs : list (list A)) (fails : nat -> nat -> bool) n sched, 1 <= n ->
+  let s := nrun seqs fails sched (finit (seq 0 (length seqs)) n) in
+  f_all_done s = true -> call_raises s = None ->
+  interleaving seqs (wtrace (ws s)) /\
+  (forall i k, i < length seqs -> k < length (nth i seqs []) -> fails i k = false).
+Proof. exact @nowait_returns_only_if_no_failure. Qed.
+Print Assumptions C05_nowait_returns_only_if_no_failure.
+
+Theorem C05_nowait_failure_raises :
+  forall (A : Type) (seqs : list (list A)) (fails : nat -> nat -> bool) n sched i k, 1 <= n ->
+  i < length seqs -> k < length (nth i seqs []) -> fails i k = true ->
+  let s := nrun seqs fails sched (finit (seq 0 (length seqs)) n) in
+  f_all_done s = true -> exists j, call_raises s = Some j.
+Proof. exact @nowait_failure_raises. Qed.
+Print Assumptions C05_nowait_failure_raises.
+
+Theorem C05_nowait_terminates :
+  forall (A : Type) (seqs : list (list A)) (fails : nat -> nat -> bool) items n sched, NoDup items ->
+  let s := nrun seqs fails sched (finit items n) in
+  feffective seqs fails items n (expand seqs fails (finit items n) sched) (finit items n)
+    <= 5 * length items + 4 * n + QueueTrace.total seqs items /\
+  (f_all_done s = false -> exists t, fphi seqs items n (fstep seqs fails s t) < fphi seqs items n s).
+Proof. exact @nowait_terminates. Qed.
+Print Assumptions C05_nowait_terminates.
